@@ -169,9 +169,8 @@ theorem C08_short_start_round (env : Env) (cfg : Cfg) (hI : 0 < cfg.interval) (a
     (p : Nat) (targets : List String) (now : Int) (hp : 3 ≤ p) (hC : Shape cfg C) (hL : 3 ≤ C.length)
     (hne : targets ≠ []) (ht : ∀ t ∈ targets, t ≠ "host")
     (hfull : Ledger.verify env cfg anyhost [] C [] now = .ok C)
-    (host : Ledger) (k : Nat) (hk1 : 1 ≤ k) (hk2 : k ≤ 2) (hb : host.blocks = C.take k) :
+    (host : Ledger) (k : Nat) (hk1 : 1 ≤ k) (hk2 : k ≤ 2) (hklen : host.blocks.length = k) :
     ∀ l ∈ Sync.outcomes env cfg host now (C08.honestResps C p k targets), l.blocks = C.take (min C.length p) := by
-  have hklen : host.blocks.length = k := by rw [hb, List.length_take]; omega
   have hpage : Ledger.page p C 0 = C.take p := by
     rw [C08_page_spec, if_pos (by omega)]; simp
   have hmin : C.take (min C.length p) = C.take p := by
@@ -212,19 +211,18 @@ theorem C08_convergence_short_start (env : Env) (cfg : Cfg) (hI : 0 < cfg.interv
     (p : Nat) (targets : List String) (t0 : Int)
     (hp : 3 ≤ p) (hC : Shape cfg C) (hL : 3 ≤ C.length) (hne : targets ≠ []) (ht : ∀ t ∈ targets, t ≠ "host")
     (hfull : AcceptedFrom env cfg anyhost [] C t0) :
-    ∀ (j k : Nat) (l l' : Ledger), 1 ≤ k → k ≤ 2 → l.blocks = C.take k → Derived l →
+    ∀ (j k : Nat) (l l' : Ledger), 1 ≤ k → k ≤ 2 → l.blocks.length = k → Derived l →
       C08.RoundsFrom env cfg C p targets t0 (j + 1) l l' →
       l'.blocks = C.take (C08.iter C.length p j (min C.length p)) ∧ Derived l' := by
-  intro j k l l' hk1 hk2 hl hd hr
+  intro j k l l' hk1 hk2 hklen hd hr
   cases hr with
   | succ hround hrest =>
     rename_i l1
-    have hklen : l.blocks.length = k := by rw [hl, List.length_take]; omega
     obtain ⟨now, hnow, hm⟩ := hround
     rw [hklen] at hm
     have hd1 : Derived l1 := outcomes_derived env cfg l now _ hd l1 hm
     have hb1 : l1.blocks = C.take (min C.length p) :=
-      C08_short_start_round env cfg hI anyhost C p targets now hp hC hL hne ht (hfull now hnow) l k hk1 hk2 hl l1 hm
+      C08_short_start_round env cfg hI anyhost C p targets now hp hC hL hne ht (hfull now hnow) l k hk1 hk2 hklen l1 hm
     exact C08_convergence_accepted env cfg hI anyhost C p targets t0 (by omega) hC hne ht hfull j
       (min C.length p) l1 l' (by omega) (Nat.min_le_left _ _) hb1 hd1 hrest
 
@@ -249,7 +247,124 @@ theorem C08_converges_within_bound (env : Env) (cfg : Cfg) (hI : 0 < cfg.interva
     show C.take (C08.iter C.length p ((C.length + (p - 2)) / (p - 1)) (min C.length (k - 1 + p))) = C
     rw [C08_convergence_rounds C.length p _ (by omega) (by omega) (Nat.min_le_left _ _), List.take_length]
   · obtain ⟨hb, hd'⟩ := C08_convergence_short_start env cfg hI anyhost C p targets t0 hp hC hL hne ht hfull _ k l l'
-      hk1 (by omega) hl hd hr
+      hk1 (by omega) (by rw [hl, List.length_take]; omega) hd hr
+    refine ⟨?_, hd'⟩
+    rw [hb, C08_convergence_rounds C.length p _ (by omega) (by omega) (Nat.min_le_left _ _), List.take_length]
+
+/-- **C08 from a private chain of one or two blocks** (ANY blocks — another first block included; the property's
+    "private chain shorter than both C and the page size", for the lengths that have no incremental phase): the same
+    bound -/
+theorem C08_private_short_converges (env : Env) (cfg : Cfg) (hI : 0 < cfg.interval) (anyhost : Ledger) (C : List Block)
+    (p : Nat) (targets : List String) (t0 : Int)
+    (hp : 3 ≤ p) (hC : Shape cfg C) (hL : 3 ≤ C.length) (hne : targets ≠ []) (ht : ∀ t ∈ targets, t ≠ "host")
+    (hfull : AcceptedFrom env cfg anyhost [] C t0) :
+    ∀ (l l' : Ledger), 1 ≤ l.blocks.length → l.blocks.length ≤ 2 → Derived l →
+      C08.RoundsFrom env cfg C p targets t0 ((C.length + (p - 2)) / (p - 1) + 1) l l' →
+      l'.blocks = C ∧ Derived l' := by
+  intro l l' h1 h2 hd hr
+  obtain ⟨hb, hd'⟩ := C08_convergence_short_start env cfg hI anyhost C p targets t0 hp hC hL hne ht hfull _
+    l.blocks.length l l' h1 h2 rfl hd hr
+  refine ⟨?_, hd'⟩
+  rw [hb, C08_convergence_rounds C.length p _ (by omega) (by omega) (Nat.min_le_left _ _), List.take_length]
+
+/-- **the first round of a node holding a PRIVATE chain of three or more blocks** (shorter than `C` and than a page;
+    private: the neighbours' block at the height of its tip does not sit on its own block below the tip, so every
+    incremental answer is refused as a fork): every outcome holds the first page of `C` -/
+theorem C08_private_long_round (env : Env) (cfg : Cfg) (hI : 0 < cfg.interval) (anyhost : Ledger) (C : List Block)
+    (p : Nat) (targets : List String) (now : Int) (hp : 3 ≤ p) (hC : Shape cfg C) (hL : 3 ≤ C.length)
+    (hne : targets ≠ []) (ht : ∀ t ∈ targets, t ≠ "host")
+    (hfull : Ledger.verify env cfg anyhost [] C [] now = .ok C)
+    (host : Ledger) (k : Nat) (hk3 : 3 ≤ k) (hkL : k < C.length) (hkp : k < p) (hklen : host.blocks.length = k)
+    (tip c : Block) (htip : host.blocks.getLast? = some tip) (hc : C[k - 1]? = some c)
+    (hpriv : tip.prevHash ≠ c.prevHash) :
+    ∀ l ∈ Sync.outcomes env cfg host now (C08.honestResps C p k targets), l.blocks = C.take (min C.length p) := by
+  have hpage : Ledger.page p C 0 = C.take p := by
+    rw [C08_page_spec, if_pos (by omega)]; simp
+  have hmin : C.take (min C.length p) = C.take p := by
+    rcases Nat.le_total C.length p with h | h
+    · rw [Nat.min_eq_left h, List.take_of_length_le h, List.take_of_length_le (Nat.le_refl _)]
+    · rw [Nat.min_eq_right h]
+  have hXlen : (C.take p).length = min p C.length := List.length_take
+  have hacc : Ledger.verify env cfg host host.blocks.dropLast (C.take p) [] now = .ok (C.take p) := by
+    have hsplit : C = C.take p ++ C.drop p := (List.take_append_drop p C).symm
+    have h1 : Ledger.verify env cfg anyhost [] (C.take p ++ C.drop p) [] now = .ok (C.take p ++ C.drop p) := by
+      rw [← hsplit]; exact hfull
+    exact verify_full_any host host.blocks.dropLast (verify_prefix_of_full hI (by rw [hXlen]; omega) h1)
+  have hne' : C08.honestResps C p k targets ≠ [] := by
+    intro e; apply hne
+    simpa [C08.honestResps] using e
+  have hresp : ∀ r ∈ C08.honestResps C p k targets, r.second = some (C.take p) := by
+    intro r hr
+    simp only [C08.honestResps, List.mem_map] at hr
+    obtain ⟨t, _, rfl⟩ := hr
+    show some (Ledger.page p C 0) = _
+    rw [hpage]
+  -- every incremental answer is refused: fork
+  have hrej : ∀ r ∈ C08.honestResps C p k targets, ∀ nb, r.first = some nb →
+      ∃ e, Ledger.verify env cfg host host.blocks.getLast?.toList nb host.blocks.dropLast now = .error e := by
+    intro r hr nb hnb
+    simp only [C08.honestResps, List.mem_map] at hr
+    obtain ⟨t, _, rfl⟩ := hr
+    simp only [Option.some.injEq] at hnb
+    subst hnb
+    have hk1 : k - 1 < C.length := by omega
+    have hpg : Ledger.page p C (k - 1) = (C.drop (k - 1)).take p := by rw [C08_page_spec, if_pos hk1]
+    have hd1 : C.drop (k - 1) = c :: C.drop (k - 1 + 1) := by
+      have hget : C[k - 1] = c := by
+        have := List.getElem?_eq_getElem hk1
+        rw [this] at hc
+        exact Option.some.inj hc
+      rw [← hget]
+      exact List.drop_eq_getElem_cons hk1
+    have hpg' : Ledger.page p C (k - 1) = c :: (C.drop (k - 1 + 1)).take (p - 1) := by
+      rw [hpg, hd1]
+      have : p = (p - 1) + 1 := by omega
+      rw [this, List.take_succ_cons]
+      simp
+    refine ⟨"fork", ?_⟩
+    rw [SL.verify_eq, htip, hpg']
+    have hold : host.blocks.dropLast.isEmpty = false := by
+      cases hdl : host.blocks.dropLast with
+      | nil =>
+        have := congrArg List.length hdl
+        simp at this
+        omega
+      | cons _ _ => rfl
+    have hfk : SL.forkCond [tip] (c :: (C.drop (k - 1 + 1)).take (p - 1)) = true := by
+      simp [SL.forkCond, hpriv]
+    simp only [Option.toList, hold, hfk, Bool.false_and, Bool.not_false, Bool.true_and, Bool.false_eq_true, if_false, if_true]
+  have hshape : Shape cfg (C.take p) := by
+    intro i a b ha hb'
+    rw [List.getElem?_take] at ha hb'
+    split at ha
+    · split at hb'
+      · exact hC i a b ha hb'
+      · cases hb'
+    · cases ha
+  rw [hmin]
+  exact ProgressL.uniform_round_fork_private (by omega) hne' (C08.honest_targets ht) hrej hresp hacc
+    (by rw [hXlen, hklen]; omega) (ProgressL.age_pos_of_shape hshape (by rw [hXlen]; omega))
+
+/-- **C08 from a private chain of three or more blocks**, shorter than `C` and than a page: the same bound -/
+theorem C08_private_long_converges (env : Env) (cfg : Cfg) (hI : 0 < cfg.interval) (anyhost : Ledger) (C : List Block)
+    (p : Nat) (targets : List String) (t0 : Int)
+    (hp : 3 ≤ p) (hC : Shape cfg C) (hL : 3 ≤ C.length) (hne : targets ≠ []) (ht : ∀ t ∈ targets, t ≠ "host")
+    (hfull : AcceptedFrom env cfg anyhost [] C t0) :
+    ∀ (l l' : Ledger) (tip c : Block), 3 ≤ l.blocks.length → l.blocks.length < C.length → l.blocks.length < p →
+      l.blocks.getLast? = some tip → C[l.blocks.length - 1]? = some c → tip.prevHash ≠ c.prevHash → Derived l →
+      C08.RoundsFrom env cfg C p targets t0 ((C.length + (p - 2)) / (p - 1) + 1) l l' →
+      l'.blocks = C ∧ Derived l' := by
+  intro l l' tip c h3 hlC hlp htip hc hpriv hd hr
+  cases hr with
+  | succ hround hrest =>
+    rename_i l1
+    obtain ⟨now, hnow, hm⟩ := hround
+    have hd1 : Derived l1 := outcomes_derived env cfg l now _ hd l1 hm
+    have hb1 : l1.blocks = C.take (min C.length p) :=
+      C08_private_long_round env cfg hI anyhost C p targets now hp hC hL hne ht (hfull now hnow) l l.blocks.length
+        h3 hlC hlp rfl tip c htip hc hpriv l1 hm
+    obtain ⟨hb, hd'⟩ := C08_convergence_accepted env cfg hI anyhost C p targets t0 (by omega) hC hne ht hfull _
+      (min C.length p) l1 l' (by omega) (Nat.min_le_left _ _) hb1 hd1 hrest
     refine ⟨?_, hd'⟩
     rw [hb, C08_convergence_rounds C.length p _ (by omega) (by omega) (Nat.min_le_left _ _), List.take_length]
 
